@@ -180,7 +180,7 @@ pub fn build_rule(spec: &RuleSpec, candidates: &[String], leaves: &[String], nam
         }
     }
     chains.push(chain);
-    MRule { targets, sources, script: chains, split: spec.split, file }
+    MRule { targets, sources, script: chains, split: spec.split, file, shell: false }
 }
 
 pub fn build_model(g: &GraphSpec) -> (Model, Names)
